@@ -299,17 +299,38 @@ theorem live_periods_whole_ms (ps : List PeriodDef) (E F nl : Nat) (l : List Out
     · rw [durAt_of_lt hq]; exact hd _ (List.getElem_mem hq)
     · unfold durAt; simp [List.getD, hq]
 
-/-- **the builder as it runs** (exact loop count `⌊F / D⌋`): for a positive total duration and
-`F ≤ E` it returns a list, and that list has all the properties above -/
-theorem live_periods_exact (ps : List PeriodDef) (E F : Nat) (hD : 0 < totalDuration ps) :
+/-- **the builder as it runs** (exact floors): for a positive total duration it either refuses
+the manifest because more than `MAX_LIVE_PERIODS` Period elements would be needed (fix
+e70c912; `ManifestNotAvailable` → 404), or returns a list – which then has all the properties
+above (the loop count it used satisfies `nl · D ≤ F`) and at most `MAX_LIVE_PERIODS` entries -/
+theorem live_periods_exact (ps : List PeriodDef) (E F : Nat) (hD : 0 < totalDuration ps) (hFE : F ≤ E) :
+    (ps.length * (1 + (E - totalDuration ps * (F / totalDuration ps)) / totalDuration ps) > maxLivePeriods ∧
+      livePeriods ps E F = .tooMany) ∨
     ∃ l, livePeriods ps E F = .ok l ∧
       livePeriodsFrom ps E F (F / totalDuration ps) = some l ∧
-      F / totalDuration ps * totalDuration ps ≤ F := by
+      F / totalDuration ps * totalDuration ps ≤ F ∧ l.length ≤ maxLivePeriods := by
   obtain ⟨l, hl⟩ := livePeriodsFrom_terminates ps E F (F / totalDuration ps) hD
-  refine ⟨l, ?_, hl, Nat.div_mul_le_self _ _⟩
-  unfold livePeriods
-  rw [hl]
-  simp only [Nat.ne_of_gt hD, if_false]
+  have hle := Nat.div_mul_le_self F (totalDuration ps)
+  by_cases hg : ps.length * (1 + (E - totalDuration ps * (F / totalDuration ps)) / totalDuration ps) > maxLivePeriods
+  · left
+    refine ⟨hg, ?_⟩
+    unfold livePeriods livePeriodsGuarded
+    simp only [Nat.ne_of_gt hD, if_false, hg, if_true]
+  · right
+    refine ⟨l, ?_, hl, hle, ?_⟩
+    · unfold livePeriods livePeriodsGuarded
+      simp only [Nat.ne_of_gt hD, if_false, hg, hl]
+    · have := livePeriodsFrom_length ps E F (F / totalDuration ps) l hD (by omega) hl
+      rw [Nat.mul_comm (F / totalDuration ps)] at this
+      omega
+
+/-- the bound the guard relies on, for any loop count: a terminating run lists at most
+`len · (1 + ⌊(E − nl·D) / D⌋)` Periods -/
+theorem live_periods_bounded (ps : List PeriodDef) (E F nl : Nat) (l : List OutPeriod)
+    (hD : 0 < totalDuration ps) (hnl : nl * totalDuration ps ≤ E)
+    (h : livePeriodsFrom ps E F nl = some l) :
+    l.length ≤ ps.length * (1 + (E - nl * totalDuration ps) / totalDuration ps) :=
+  livePeriodsFrom_length ps E F nl l hD hnl h
 
 /-- total duration 0 (all durations zero, or no Periods): the loop-count division raises
 `ZeroDivisionError` – no manifest; and the loop itself, were it reached, would never
@@ -317,7 +338,7 @@ leave (`liveLoop_zero_diverges`) -/
 theorem live_zero_duration (ps : List PeriodDef) (E F : Nat) (hD : totalDuration ps = 0) :
     livePeriods ps E F = .zeroDivision ∧
     (0 < ps.length → ∀ fuel, liveLoop ps E F fuel 0 0 0 = none) := by
-  refine ⟨by unfold livePeriods; simp [hD], ?_⟩
+  refine ⟨by unfold livePeriods livePeriodsGuarded; simp [hD], ?_⟩
   intro hn fuel
   have := liveLoop_zero_diverges ps E F hn hD fuel 0
   have h0 : startG (durations ps) (totalDuration ps) 0 = 0 := by
